@@ -154,12 +154,12 @@ def Out.isRaised : Out → Bool
 /-! ### ClientSSM -/
 
 /-- the maximum APDU the client assumes the server accepts (`ClientSSM.indication`) -/
-def clientMaxApdu (di : Option DeviceInfo) (b : Body) : Nat :=
+def clientMaxApdu (di : Option DeviceInfo) (own : Nat) : Nat :=
   match di with
-  | none => b.maxApdu
+  | none => own
   | some d =>
     match d.maxApdu with
-    | none => b.maxApdu
+    | none => own
     | some m =>
       match d.maxNpdu with
       | none => m
@@ -193,7 +193,7 @@ def clientAbortBoth (k : Key) (reason : Nat) : Res :=
 def clientIndication (cfg : Cfg) (now : Nat) (di : Option DeviceInfo) (k : Key) (b : Body)
     (req : Apdu) : Res :=
   let b := { b with ctx := some req }
-  match setSegmentSize req.data.length (clientMaxApdu di b) 4 6 with
+  match setSegmentSize req.data.length (clientMaxApdu di b.maxApdu) 4 6 with
   | none => clientAbortApp k abortApduTooLong
   | some (size, count) =>
     let b := { b with segSize := size, segCount := count }
@@ -436,10 +436,10 @@ def exceeds : Option Nat → Nat → Bool
 
 /-- the largest APDU the server may send: the client's maximum, capped by the
     cached `maxNpduLength` when known -/
-def serverMaxApdu (npdu : Option Nat) (b : Body) : Nat :=
+def serverMaxApdu (npdu : Option Nat) (m : Nat) : Nat :=
   match npdu with
-  | none => b.maxApdu
-  | some n => min n b.maxApdu
+  | none => m
+  | some n => min n m
 
 /-- `ServerSSM.confirmation(apdu)`: the application's answer.  `npdu` is the
     cached `maxNpduLength` of the client (if the transaction holds a record). -/
@@ -449,7 +449,7 @@ def serverConfirmation (cfg : Cfg) (now : Nat) (npdu : Option Nat) (k : Key) (b 
   else if a.ty = 2 || a.ty = 5 || a.ty = 6 then (none, [.send k.peer a])
   else if a.ty = 3 then
     let b := { b with ctx := some a }
-    match setSegmentSize a.data.length (serverMaxApdu npdu b) 3 5 with
+    match setSegmentSize a.data.length (serverMaxApdu npdu b.maxApdu) 3 5 with
     | none => serverAbortNet k abortApduTooLong
     | some (size, count) =>
       let b := { b with segSize := size, segCount := count }
